@@ -55,6 +55,11 @@ def tasks(tier, seed):
     out.append({"fn": "numbering", "kwargs": {}, "label": "number"})
     out.append({"fn": "names", "kwargs": {}, "label": "names"})
     out.append({"fn": "save_files", "kwargs": {}, "label": "save_to_files"})
+    for which, n in (("3", 3), ("4", 4), ("5", 5)):
+        for rot in range(n):
+            if which == "3" and rot == 0:
+                continue
+            out.append({"fn": "save_files", "kwargs": {"which": which, "rot": rot}, "label": f"save_to_files/{which}/rot={rot}"})
     # contents: what Outputs.save_to_file hands to every writer, for ordered format lists of the image bucket
     fmts = ["fits", "npy", "jpg", "png", "txt"]
     lists = [list(c) for c in itertools.permutations(fmts, 2)] + [["jpg", "fits", "npy"], ["fits", "jpg", "npy"], ["png", "jpg", "txt"], ["npy", "png", "fits", "jpg"]]
@@ -321,8 +326,16 @@ def names():
         vx.prove("C19/parallel_index/bijection", sorted(idx.ravel().tolist()) == list(range(size)))
 
 
-def save_files():
-    """save_to_files(overwrite=False): every reported file was written by this call, unless it already existed."""
+SAVE_LISTS = {
+    "3": ["detector_image.fits", "detector_image.npy", "detector_pixel.npy"],
+    "4": ["detector_image.fits", "detector_pixel.npy", "detector_image.npy", "detector_pixel.fits"],
+    "5": ["detector_pixel.npy", "detector_image.fits", "detector_signal.npy", "detector_image.npy", "detector_pixel.fits"],
+}
+
+
+def save_files(which="3", rot=0):
+    """save_to_files(overwrite=False): every reported file was written by this call, unless it already existed - for every order
+    in which the requested (bucket, format) combinations are listed."""
     import pyxel.outputs.utils as ou
 
     from .common import make_ccd
@@ -338,11 +351,13 @@ def save_files():
         det = make_ccd(2, 2)
         det.image.array = np.zeros((2, 2), dtype=np.uint16)
         det.pixel.array = np.zeros((2, 2))
+        det.signal.array = np.zeros((2, 2))
         proc = Processor(detector=det, pipeline=DetectionPipeline())
-        files = ["detector_image.fits", "detector_image.npy", "detector_pixel.npy"]
+        base = SAVE_LISTS[which]
+        files = base[rot % len(base):] + base[: rot % len(base)]
         dt = ou.save_to_files(folder=folder, processor=proc, filenames=files, header=None)
-    reported = sorted(str(x) for g in ("image", "pixel") for x in np.asarray(dt[g]["filename"]).ravel().tolist())
-    vx.prove("C19/files/every_request_reported_once", reported == sorted(str(folder / f) for f in files))
+    reported = sorted(str(x) for g in dt.children for x in np.asarray(dt[g]["filename"]).ravel().tolist())
+    vx.prove("C19/files/every_request_reported_once", reported == sorted(str(folder / f) for f in files), order=files)
     written = [w[0] for w in rec.writes]
     vx.prove("C19/files/never_overwrites", vx.all_of([(~w[1] if vx.is_sym(w[1]) else (w[1] is False)) for w in rec.writes]))
     fresh = [f for f in reported if not (vx.is_sym(fs.flags.get(f)) and vx.current().implied(fs.flags[f].t)) and fs.flags.get(f) is not True]
@@ -453,8 +468,30 @@ def replay(oid, kwargs, model, data):
     """Real file system in a scratch directory."""
     if data["fn"] == "content":
         return _replay_content(kwargs, model)
+    if data["fn"] == "save_files":
+        import shutil
+
+        import pyxel.outputs.utils as ou
+        from pyxel.pipelines import DetectionPipeline, Processor
+
+        from .common import make_ccd
+
+        base = SAVE_LISTS[kwargs.get("which", "3")]
+        rot = kwargs.get("rot", 0) % len(base)
+        files = base[rot:] + base[:rot]
+        tmp = tempfile.mkdtemp(prefix="vx_c19_")
+        try:
+            det = make_ccd(2, 2)
+            det.image.array = np.arange(4, dtype=np.uint16).reshape(2, 2)
+            det.pixel.array = np.arange(4.0).reshape(2, 2)
+            det.signal.array = np.arange(4.0).reshape(2, 2) / 8
+            dt = ou.save_to_files(folder=pathlib.Path(tmp), processor=Processor(detector=det, pipeline=DetectionPipeline()), filenames=files, header=None)
+            reported = sorted(pathlib.Path(str(x)).name for g in dt.children for x in np.asarray(dt[g]["filename"]).ravel().tolist())
+            on_disk = sorted(f.name for f in pathlib.Path(tmp).iterdir())
+        finally:
+            shutil.rmtree(tmp, ignore_errors=True)
+        return reported != sorted(files) or on_disk != sorted(files), {"requested": files, "reported": reported, "written": on_disk}
     import os
-    import tempfile
 
     import pyxel.outputs.utils as ou
 
